@@ -49,7 +49,13 @@ type wrapCfg struct {
 }
 
 type wrapOp struct {
-	Kind     string   `json:"kind"` // wrap_paragraph | prepare | next_line
+	// wrap_paragraph | prepare | next_line |
+	// burst_wrap_paragraph: Burst-1 uncompared WrapParagraph calls alternating between AltPara and Para
+	//   (same config and width), then this call as "wrap_paragraph" |
+	// burst_prepare: Burst-1 times Prepare + one WrapNextLine(MaxWidth), alternating likewise, then "prepare"
+	Kind     string   `json:"kind"`
+	Burst    int      `json:"burst,omitempty"`
+	AltPara  *paraDef `json:"alt_para,omitempty"`
 	Para     *paraDef `json:"para,omitempty"`
 	Cfg      *wrapCfg `json:"cfg,omitempty"`
 	MaxWidth int      `json:"max_width"`
@@ -198,9 +204,59 @@ func (m *wrapMachine) begin(op wrapOp, sp *shapedPara) {
 	m.prevLines = 0
 }
 
+// burst performs the uncompared calls of a burst op; it reports false when the op cannot go on.
+func (m *wrapMachine) burst(op wrapOp) bool {
+	if op.Para == nil || op.Cfg == nil || op.AltPara == nil {
+		m.t.Fatalf("infrastructure: incomplete op in replayed case")
+	}
+	sps := [2]*shapedPara{m.para(*op.Para), m.para(*op.AltPara)}
+	if sps[0] == nil || sps[1] == nil {
+		return false
+	}
+	one := func(w *shaping.LineWrapper, sp *shapedPara) {
+		if op.Kind == "burst_wrap_paragraph" {
+			w.WrapParagraph(op.Cfg.config(sp), op.MaxWidth, copyRunes(sp.text), shaping.NewSliceIterator(copyRuns(sp.runs)))
+		} else {
+			w.Prepare(op.Cfg.config(sp), copyRunes(sp.text), shaping.NewSliceIterator(copyRuns(sp.runs)))
+			w.WrapNextLine(op.MaxWidth)
+		}
+	}
+	m.flags[burstLabel(op.Burst)] = true
+	if p := try(func() {
+		for i := 1; i < op.Burst; i++ {
+			one(m.used, sps[(op.Burst-i)%2])
+		}
+	}); p != nil {
+		if pf := try(func() { one(&shaping.LineWrapper{}, sps[0]); one(&shaping.LineWrapper{}, sps[1]) }); pf == nil {
+			m.fail("the burst panicked on the used wrapper, a fresh one handles both paragraphs: %v", p)
+		}
+		m.restart()
+	}
+	m.prep = nil
+	if op.Burst > 1 {
+		m.flags["abandoned_iteration"] = m.flags["abandoned_iteration"] || op.Kind == "burst_prepare"
+		m.prevBegin, m.prevLines = "burst", 2
+	}
+	return true
+}
+
 func (m *wrapMachine) apply(op wrapOp) {
 	m.c.Ops = append(m.c.Ops, op)
 	ev.Journal("wrap", m.c) // names the culprit if the process hangs or dies in this step
+	switch op.Kind {
+	case "burst_wrap_paragraph":
+		if m.burst(op) {
+			op.Kind = "wrap_paragraph"
+		} else {
+			return
+		}
+	case "burst_prepare":
+		if m.burst(op) {
+			op.Kind = "prepare"
+		} else {
+			return
+		}
+	}
 	switch op.Kind {
 	case "wrap_paragraph":
 		if op.Para == nil || op.Cfg == nil {
@@ -439,6 +495,24 @@ func TestPropWrap(t *testing.T) {
 				return
 			}
 			m.apply(wrapOp{Kind: "next_line", MaxWidth: drawWidth(rt, m.prep)})
+		})
+		weighted(actions, "burst", 1, func(rt *rapid.T) {
+			// many tiny wraps in one step, then a compared call
+			op := drawBegin(rt, rapid.SampledFrom([]string{"wrap_paragraph", "prepare"}).Draw(rt, "burstOf"))
+			op.Kind = "burst_" + op.Kind
+			alt := drawPara(rt)
+			if len(alt.Text) > 6 {
+				alt.Text = alt.Text[:6]
+			}
+			op.AltPara = &alt
+			if op.MaxWidth == 0 {
+				op.MaxWidth = drawWidth(rt, m.para(*op.Para))
+			}
+			op.Burst = drawBurstN(rt, false)
+			if len(op.Para.Text) > 12 && op.Burst > 300 {
+				op.Burst = rapid.SampledFrom(burstByte[:4]).Draw(rt, "burstN")
+			}
+			m.apply(op)
 		})
 		rt.Repeat(actions)
 		m.finish()
